@@ -107,7 +107,7 @@ pub fn run(ctx: &Ctx) -> Option<Report> {
             rep.merge(run_cases(ctx, 2, 4, "", |i, _seed, r| exhaustion_u16(i, r)));
             rep.merge(run_cases(ctx, 3, 8, "", |i, _seed, r| resume_oversize_ids(i, r)));
         }
-        "C14" => rep.merge(run_cases(ctx, 2, 8, "", |i, _seed, r| size_boundaries(i, r))),
+        "C14" => rep.merge(run_cases(ctx, 2, 8, "", |i, _seed, r| size_boundaries(i, r, "C14"))),
         "C05" => {
             rep.merge(run_cases(ctx, 4, 4, "", |i, _seed, r| huge_frames(i, r)));
             rep.merge(run_cases(ctx, 5, 2, "", |i, _seed, r| many_exchanges_u32(i, r, "C05")));
@@ -118,7 +118,11 @@ pub fn run(ctx: &Ctx) -> Option<Report> {
             rep.merge(run_cases(ctx, 6, 8, "", |i, _seed, r| window_fill(i, r)));
         }
         "C07" => rep.merge(run_cases(ctx, 7, 2, "", |i, _seed, r| mid_size_alias_publish(i, r))),
-        "C13" => rep.merge(run_cases(ctx, 9, 8, "", |i, _seed, r| many_aliases(i, r))),
+        "C13" => {
+            rep.merge(run_cases(ctx, 9, 8, "", |i, _seed, r| many_aliases(i, r)));
+            // the size-boundary workload also decides whether an alias the library could not put on the wire was recorded
+            rep.merge(run_cases(ctx, 2, 8, "", |i, _seed, r| size_boundaries(i, r, "C13")));
+        }
         _ => {}
     }
     Some(rep)
@@ -267,7 +271,7 @@ fn huge_frames(i: u64, rep: &mut Report) {
     let role = if as_client { Role::Client } else { Role::Server };
     let ver = Ver::V5;
     const MAXRL: usize = 268_435_455;
-    for (what, rl, alias_only, qos) in [("alias-only PUBLISH, Remaining Length max", MAXRL, true, 0u8), ("alias-only PUBLISH, Remaining Length max-10, QoS 1", MAXRL - 10, true, 1), ("PUBLISH with topic, Remaining Length max", MAXRL, false, 0), ("alias-only PUBLISH just small enough", MAXRL - 16, true, 2)] {
+    for (what, rl, alias_only, qos) in [("alias-only PUBLISH, Remaining Length max", MAXRL, true, 0u8), ("alias-only PUBLISH, Remaining Length max-10, QoS 1", MAXRL - 10, true, 1), ("PUBLISH with topic, Remaining Length max", MAXRL, false, 0), ("alias-only PUBLISH just small enough", MAXRL - 16, true, 2), ("alias-only PUBLISH, resolved packet one below the maximum", MAXRL - 15, true, 0), ("alias-only PUBLISH, resolved packet exactly the maximum", MAXRL - 14, true, 0), ("alias-only PUBLISH, resolved packet one above the maximum", MAXRL - 13, true, 1)] {
         let mut c = new_conn(role, idw, LVer::V5);
         let connect = Pkt::Connect { ver, clean: true, keep_alive: 0, client_id: b"c".to_vec(), will: None, user: None, pass: None, props: if as_client { vec![p_u16(P_TAM, 4)] } else { vec![] } };
         let connack = Pkt::Connack { ver, sp: false, code: 0, props: if as_client { vec![] } else { vec![p_u16(P_TAM, 4)] } };
@@ -686,7 +690,7 @@ fn many_aliases(i: u64, rep: &mut Report) {
 }
 
 /// C14: limits exactly at size-1 / size / size+1 of the very packet, for every send path
-fn size_boundaries(i: u64, rep: &mut Report) {
+fn size_boundaries(i: u64, rep: &mut Report, prop: &'static str) {
     use crate::apkt::*;
     use crate::conn::*;
     use crate::refcodec as rc;
@@ -722,13 +726,13 @@ fn size_boundaries(i: u64, rep: &mut Report) {
         rep.evaluations += 1;
         rep.api_calls += out.api_calls;
         for (k, v) in out.hits.iter() {
-            if k.starts_with('Z') {
+            if (prop == "C14" && k.starts_with('Z')) || (prop == "C13" && k.starts_with("AL")) {
                 rep.hit_n(k, *v);
             }
         }
         rep.distinct_case(format!("{} {:?} {} {}", what, role, idw, as_client).as_bytes());
-        for f in out.found.iter().filter(|f| f.property == "C14") {
-            rep.violate(Violation { property: "C14".into(), rule: f.rule.to_string(), signature: f.signature(), what: format!("[{}] {}", what, f.what), witness: json!({"history": trace_json(&out.trace)}), case: (2, i) });
+        for f in out.found.iter().filter(|f| f.property == prop) {
+            rep.violate(Violation { property: prop.into(), rule: f.rule.to_string(), signature: f.signature(), what: format!("[{}] {}", what, f.what), witness: json!({"history": trace_json(&out.trace)}), case: (2, i) });
         }
     };
     // (1) direct sends of every kind this path may send while connected
@@ -828,23 +832,43 @@ fn size_boundaries(i: u64, rep: &mut Report) {
                     if base > 1000 && props_pad > 0 {
                         continue;
                     }
-                    let mut props = Vec::new();
-                    if props_pad > 0 {
-                        // property section at props_pad + extra/2 bytes: around its own 127/128 boundary
-                        props.push(Prop { id: 38, val: PVal::Pair(b"k".to_vec(), vec![b'v'; props_pad + extra / 2 - 6]) });
-                    }
-                    let payload_len = if props_pad > 0 { 1 } else { base + extra - 8 };
-                    let p0 = Pkt::Publish { ver, dup: false, qos, retain: false, topic: b"t/u".to_vec(), id: if qos > 0 { Some(1) } else { None }, props: props.clone(), payload: vec![b'z'; payload_len] };
-                    let plain = rc::encode(&p0, idw).len() as u32;
-                    let mut d = mk(plain + delta, 2, true, false);
-                    for _ in 0..2 {
-                        let id = if qos > 0 { d.acquire() } else { None };
-                        if qos > 0 && id.is_none() {
-                            break;
+                    // automatic mapping (the library chooses the alias) / automatic replacement (the application registered it),
+                    // topics of 1..3 bytes (the swap topic -> 3-byte alias property then grows, keeps or shrinks the packet)
+                    for (replace, topic) in [(false, &b"t/u"[..]), (true, &b"t"[..]), (true, &b"tu"[..]), (true, &b"t/u"[..])] {
+                        if base > 1000 && topic.len() != 3 {
+                            continue;
                         }
-                        d.send(Pkt::Publish { ver, dup: false, qos, retain: false, topic: b"t/u".to_vec(), id, props: props.clone(), payload: vec![b'z'; payload_len] });
+                        let mut props = Vec::new();
+                        if props_pad > 0 {
+                            // property section at props_pad + extra/2 bytes: around its own 127/128 boundary
+                            props.push(Prop { id: 38, val: PVal::Pair(b"k".to_vec(), vec![b'v'; props_pad + extra / 2 - 6]) });
+                        }
+                        let payload_len = if props_pad > 0 { 1 } else { base + extra - 8 };
+                        let p0 = Pkt::Publish { ver, dup: false, qos, retain: false, topic: topic.to_vec(), id: if qos > 0 { Some(1) } else { None }, props: props.clone(), payload: vec![b'z'; payload_len] };
+                        let plain = rc::encode(&p0, idw).len() as u32;
+                        let mut d = mk(plain + delta, 2, !replace, false);
+                        if replace {
+                            d.set_opt(Opt::AutoReplaceTopicAlias, true);
+                            // the application binds alias 1 to the topic with a small packet
+                            d.send(Pkt::Publish { ver, dup: false, qos: 0, retain: false, topic: topic.to_vec(), id: None, props: vec![p_u16(P_TA, 1)], payload: vec![] });
+                        } else {
+                            // fill the table of 2 so that the next new topic evicts
+                            d.send(Pkt::Publish { ver, dup: false, qos: 0, retain: false, topic: b"o/1".to_vec(), id: None, props: vec![], payload: vec![] });
+                            d.send(Pkt::Publish { ver, dup: false, qos: 0, retain: false, topic: b"o/2".to_vec(), id: None, props: vec![], payload: vec![] });
+                        }
+                        for _ in 0..2 {
+                            let id = if qos > 0 { d.acquire() } else { None };
+                            if qos > 0 && id.is_none() {
+                                break;
+                            }
+                            d.send(Pkt::Publish { ver, dup: false, qos, retain: false, topic: topic.to_vec(), id, props: props.clone(), payload: vec![b'z'; payload_len] });
+                        }
+                        // small follow-ups: whatever the library recorded about the big ones now shows on the wire
+                        d.send(Pkt::Publish { ver, dup: false, qos: 0, retain: false, topic: topic.to_vec(), id: None, props: vec![], payload: vec![b's'] });
+                        d.send(Pkt::Publish { ver, dup: false, qos: 0, retain: false, topic: b"o/1".to_vec(), id: None, props: vec![], payload: vec![b's'] });
+                        d.send(Pkt::Publish { ver, dup: false, qos: 0, retain: false, topic: b"o/2".to_vec(), id: None, props: vec![], payload: vec![b's'] });
+                        judge(d, &format!("{} at encoding boundary topic_len={} plain={} limit=plain+{} qos={} props_pad={}", if replace { "auto-replace" } else { "auto-map" }, topic.len(), plain, delta, qos, props_pad), rep);
                     }
-                    judge(d, &format!("auto-map at encoding boundary plain={} limit=plain+{} qos={} props_pad={}", plain, delta, qos, props_pad), rep);
                 }
             }
         }
